@@ -2605,11 +2605,14 @@ impl Node {
     /// Adds addresses to the node's current allowlist.
     pub fn add_allowlist(&self, adds: &[String]) -> Result<(), Status> {
         let mut state = self.get_state();
+        // parse every entry before touching the allowlist: a refused request changes nothing
+        let mut allowables = Vec::new();
         for a in adds.iter() {
             let allowable = Allowable::from_str(a, self.node_config.network)
                 .map_err(|e| invalid_argument(format!("could not parse {}", e)))?;
-            state.allowlist.insert(allowable);
+            allowables.push(allowable);
         }
+        state.allowlist.extend(allowables);
         self.update_allowlist(&state)?;
         Ok(())
     }
@@ -2617,12 +2620,14 @@ impl Node {
     /// Replace the node's allowlist with the provided allowlist.
     pub fn set_allowlist(&self, list: &[String]) -> Result<(), Status> {
         let mut state = self.get_state();
-        state.allowlist.clear();
+        // parse every entry before touching the allowlist: a refused request changes nothing
+        let mut allowables = Vec::new();
         for a in list.iter() {
             let allowable = Allowable::from_str(a, self.node_config.network)
                 .map_err(|e| invalid_argument(format!("could not parse {}", e)))?;
-            state.allowlist.insert(allowable);
+            allowables.push(allowable);
         }
+        state.allowlist = allowables.into_iter().collect();
         self.update_allowlist(&state)?;
         Ok(())
     }
@@ -2637,10 +2642,15 @@ impl Node {
     /// Removes addresses from the node's current allowlist.
     pub fn remove_allowlist(&self, removes: &[String]) -> Result<(), Status> {
         let mut state = self.get_state();
+        // parse every entry before touching the allowlist: a refused request changes nothing
+        let mut allowables = Vec::new();
         for r in removes.iter() {
             let allowable = Allowable::from_str(r, self.node_config.network)
                 .map_err(|e| invalid_argument(format!("could not parse {}", e)))?;
-            state.allowlist.remove(&allowable);
+            allowables.push(allowable);
+        }
+        for allowable in allowables.iter() {
+            state.allowlist.remove(allowable);
         }
         self.update_allowlist(&state)?;
         Ok(())
